@@ -17,6 +17,7 @@ func init() {
 	env.Register("C04_NewViewCommit", C04_NewViewCommit)
 	env.Register("C04_LeaderReproposal", C04_LeaderReproposal)
 	env.Register("C03_LateCommit", C03_LateCommit)
+	env.Register("C04_PanickingValidator", C04_PanickingValidator)
 }
 
 // C04_LeaderReproposal: weighted committee [1,2,3,4]; the correct node 3 (weight 4) accepted and PREPAREd
@@ -361,4 +362,52 @@ func C03_LateCommit() {
 	env.Reach("C03.late.commit")
 	env.Assert("C03.commit_once", len(n.commits) == 1)
 	wd.checkCommit(n.commits[0], validator)
+}
+
+// C04_PanickingValidator: the consumer's ValidateBlockProposal has a bug: it panics on one particular block. The
+// leader proposes exactly that block, in view 0 by PREPREPARE or in view 1 inside a genuine proof-less NEW_VIEW; the
+// other members PREPARE and COMMIT it. This node's validator never approved it (the worker's handler recovers the
+// panic and drops the message), so the node neither PREPAREs it nor hands it to its commit callback as a block it
+// approved.
+func C04_PanickingValidator() {
+	me := env.Param("me") // 2 or 3
+	wd := newWorld(me, paramWeights())
+	n, net := wd.n, wd.net
+	bad := &stub.Block{H: 1, Tag: 0x2B, ProposalOK: true}
+	n.bu.PanicTag = bad.Tag
+	hash := stub.HashOf(bad)
+	view := primitives.View(0)
+	p := 0
+	deliver := func(raw *interfaces.ConsensusRawMessage) {
+		if q := env.Catch(func() { n.m.worker.handleRawMessage(raw) }); q != 0 {
+			p = q
+		}
+	}
+	if env.NondetBool("inside_new_view") {
+		view = 1
+		n.timeout()
+		var votes []*interfaces.ViewChangeMessage
+		for _, i := range othersOf(me) {
+			votes = append(votes, net.vcm(i, 1, 1, nil))
+		}
+		deliver(net.nvm(1, 1, 1, votes, bad).ToConsensusRawMessage())
+	} else {
+		deliver(net.ppm(0, 1, 0, bad).ToConsensusRawMessage())
+	}
+	for _, i := range othersOf(me, int(uint64(view)%4)) {
+		deliver(net.pm(i, 1, view, hash).ToConsensusRawMessage())
+	}
+	for _, i := range othersOf(me) {
+		deliver(net.cm(i, 1, view, hash).ToConsensusRawMessage())
+	}
+	env.Assert("C12.worker.no_panic", p == 0)
+	for _, sm := range n.comm.Out {
+		if pm, ok := sm.Msg.(*interfaces.PrepareMessage); ok {
+			env.Assert("C04.prepare_only_for_approved", !env.EqBytes(pm.Content().SignedHeader().BlockHash(), hash))
+		}
+	}
+	for _, c := range n.commits {
+		env.Assert("C04.approved_by_correct", c.block == nil || c.block.Tag != bad.Tag)
+	}
+	env.Reach("C04.panicking_validator.done")
 }
